@@ -987,6 +987,11 @@ def equal(ex, a, b):
         a = a.sym
     if isinstance(b, SymKey):
         b = b.sym
+    # a native python list (e.g. the value of `list[tuple[int, bytes]]()`): compared as a list with a concrete spine
+    if type(a) is list:
+        a = ex.alloc(LObj(list(a)))
+    if type(b) is list:
+        b = ex.alloc(LObj(list(b)))
     ka, kb = ex.kind_of(a), ex.kind_of(b)
     if ka in ('int', 'bool') and kb in ('int', 'bool'):
         if ex.is_conc(a) and ex.is_conc(b):
